@@ -4,6 +4,33 @@
 
 static struct printbuf *pb;
 
+/* `sproom`: every realloc and vasprintf the library calls during that one sprintbuf fails (linked with
+ * -Wl,--wrap=realloc,--wrap=vasprintf) */
+#include <stdarg.h>
+void *__real_realloc(void *p, size_t n);
+int __real_vasprintf(char **strp, const char *fmt, va_list ap);
+static int oom_window, oom_hits;
+void *__wrap_realloc(void *p, size_t n)
+{
+	if (oom_window)
+	{
+		oom_hits++;
+		errno = ENOMEM;
+		return NULL;
+	}
+	return __real_realloc(p, n);
+}
+int __wrap_vasprintf(char **strp, const char *fmt, va_list ap)
+{
+	if (oom_window)
+	{
+		oom_hits++;
+		errno = ENOMEM;
+		return -1;
+	}
+	return __real_vasprintf(strp, fmt, ap);
+}
+
 static void show(int ret, int appendlike)
 {
 	int nul = (pb->bpos < pb->size) && pb->buf[pb->bpos] == 0;
@@ -83,6 +110,26 @@ int main(void)
 			int r = sprintbuf(pb, "%s", s);
 			free(s);
 			show(r, 1);
+		}
+		else if (!strcmp(W[0], "sproom") && NW == 2)
+		{
+			/* sprintbuf while the allocator refuses everything: served from the space at hand, or refused with the
+			 * buffer - text, length and the terminating NUL - exactly as it was (issued right after an append) */
+			char *s = unhexz(W[1], NULL);
+			oom_window = 1;
+			oom_hits = 0;
+			int r = sprintbuf(pb, "%s", s);
+			oom_window = 0;
+			free(s);
+			if (r >= 0)
+				show(r, 1);
+			else
+			{
+				int nul = (pb->bpos < pb->size) && pb->buf[pb->bpos] == 0;
+				printf("%d %d ", r, pb->bpos);
+				puthex(pb->buf, (size_t)pb->bpos);
+				printf(" nul=%d ## oom %d nul=%d\n", nul, pb->size, nul);
+			}
 		}
 		else if (!strcmp(W[0], "reset") && NW == 1)
 		{
